@@ -5,6 +5,6 @@ cd "$(dirname "$0")"
 export GOFLAGS=-mod=mod GOPROXY=off GOSUMDB=off GOTOOLCHAIN=local
 mkdir -p .build/bin .build/work evidence
 cp /repo/go.sum harness/go.sum
-(cd harness && go build -tags verif -o ../.build/bin/ ./cmd/...)
+(cd harness && go build -tags verif -o ../.build/bin/ ./cmd/... && go build -tags "verif datadog" -o ../.build/bin/zcheck-libzstd ./cmd/zcheck)
 java -cp /opt/veriftools/tla/tla2tools.jar tlc2.TLC -h >/dev/null 2>&1 || true
 echo setup ok
